@@ -24,7 +24,7 @@ def osetProd (a b : List Term) : List Term :=
   oset (a.flatMap (fun x => b.map (fun y => Term.mul x y)))
 
 /-- `functools.reduce(lambda x, y: x * y, ts)`; `TypeError` on an empty iterable -/
-def reduceMul : List Term → Except ParseErr Term
+def reduceMulTerms : List Term → Except ParseErr Term
   | [] => .error (.internal "TypeError")
   | t :: ts => .ok (ts.foldl Term.mul t)
 
@@ -58,7 +58,7 @@ def Val.isStruct : Val → Bool
   | _ => false
 
 /-- insert/replace a key in an insertion-ordered dictionary -/
-def dictSet {α} (d : List (String × α)) (k : String) (v : α) : List (String × α) :=
+def kvSet {α} (d : List (String × α)) (k : String) (v : α) : List (String × α) :=
   if d.any (fun p => p.1 == k) then d.map (fun p => if p.1 == k then (k, v) else p) else d ++ [(k, v)]
 
 /-- `Structured(root?, **structure)`: keyword keys in order, then `root` last -/
@@ -77,11 +77,11 @@ def groupByKey (objs : List Val) : List (String × List Val) :=
     match o with
     | .struct fs => fs.foldl (fun acc p =>
         match acc.find? (fun q => q.1 == p.1) with
-        | some q => dictSet acc p.1 (q.2 ++ [p.2])
+        | some q => kvSet acc p.1 (q.2 ++ [p.2])
         | none => acc ++ [(p.1, [p.2])]) acc
     | v =>
       match acc.find? (fun q => q.1 == "root") with
-      | some q => dictSet acc "root" (q.2 ++ [v])
+      | some q => kvSet acc "root" (q.2 ++ [v])
       | none => acc ++ [("root", [v])]) []
 
 /-- merge each key group with `rec` (a single value is kept as it is) -/
@@ -140,7 +140,7 @@ deriving Repr, Inhabited
 
 def nestedProduct (parents nested : List Term) : Except ParseErr (List Term) :=
   if parents.isEmpty then .error (.syntax "empty parent in nesting")
-  else match reduceMul parents with
+  else match reduceMulTerms parents with
     | .error e => .error e
     | .ok common => .ok (osetUnion parents (oset (nested.map (fun t => Term.mul common t))))
 
